@@ -13,7 +13,7 @@ from vlib import gen_circ, sims
 ID = "C14"
 RULE = (
     "Hypothesis generates (a) histories of 2..8 operations (append_circuit with an injective qubit list, a+b, a+=b, "
-    "a+=gate, repeat(n) n in 0..5, copy / copy(vanilla), user mutation of a result by append or in-place qubit-list edit) "
+    "a+=gate, repeat(n) n in 0..5, copy / copy(vanilla), user mutation of a result by append or in-place qubit-list edit, use of a copy's scratch-qubit bookkeeping for QCircuitEnhanced operands) "
     "over a pool of 2..3 circuits on 1..4 qubits, (b) QCircuitEnhanced circuits with adjacent same-object / equal-object / "
     "barrier-separated gate pairs for remove_identities, (c) qft+iqft on injective qubit lists of length 1..5 inside a wider "
     "register. Oracle: numpy unitaries (products, embeddings, powers) and unchanged gate lists of every object an operation does not own. "
@@ -37,11 +37,14 @@ def budget(tier):
 def history_case(draw):
     nc = draw(st.integers(2, 3))
     circs = [draw(gen_circ.general_circuit(1, 4, 6, NAMES)) for _ in range(nc)]
+    for c in circs:
+        # some circuits are QCircuitEnhanced objects with scratch-qubit bookkeeping (free / marked ancillas)
+        c["enh"] = draw(st.sampled_from([0, 0, 0, 1, 2]))
     ops = []
     nops = draw(st.integers(2, 8))
     small = st.integers(0, 7)
     for _ in range(nops):
-        k = draw(st.sampled_from(["append", "append", "add", "iadd", "iaddgate", "repeat", "copy", "mut_append", "mut_inplace"]))
+        k = draw(st.sampled_from(["append", "append", "add", "iadd", "iaddgate", "repeat", "copy", "mut_append", "mut_inplace", "copy_scratch"]))
         if k == "append":
             ops.append([k, draw(small), draw(small), draw(st.lists(st.integers(0, 50), min_size=4, max_size=4))])
         elif k in ("add", "iadd"):
@@ -52,6 +55,8 @@ def history_case(draw):
             ops.append([k, draw(small), draw(st.sampled_from([0, 1, 2, 2, 3, 3, 4, 5]))])
         elif k == "copy":
             ops.append([k, draw(small), draw(st.booleans())])
+        elif k == "copy_scratch":
+            ops.append([k, draw(small), draw(st.sampled_from(["get", "add", "mark", "get+x"]))])
         else:
             ops.append([k, draw(small), draw(small)])
     return {"kind": "history", "circuits": circs, "ops": ops}
@@ -62,7 +67,7 @@ def rmid_case(draw):
     n = draw(st.integers(1, 4))
     names = ["X", "Y", "Z", "H", "S", "T", "P", "CX", "CZ", "CP", "CCX", "SWAP", "BARRIER"]
     gl = draw(gen_circ.gate_list(n, names, 1, 8))
-    dups = [draw(st.sampled_from(["no", "no", "same", "equal", "barrier-same", "same-twice"])) for _ in gl]
+    dups = [draw(st.sampled_from(["no", "no", "same", "equal", "barrier-same", "same-twice", "sandwich", "sandwich-barrier"])) for _ in gl]
     return {"kind": "rmid", "n": n, "gates": gl, "dups": dups}
 
 
@@ -104,17 +109,38 @@ def viol(kind, feats, **detail):
     return {"status": "violation", "kind": kind, "detail": detail, "features": feats}
 
 
+def state_fp(qc):
+    """generic snapshot of every attribute of a circuit object (gate lists as signatures, sets sorted)"""
+    out = {}
+    for k_, v in sorted(vars(qc).items()):
+        if k_ in ("gates", "gates_computed"):
+            out[k_] = [sims.gate_sig(g) for g in v]
+        elif isinstance(v, (set, frozenset)):
+            out[k_] = sorted(v)
+        elif isinstance(v, dict):
+            out[k_] = sorted(v.items())
+        else:
+            out[k_] = repr(v)
+    return out
+
+
 def judge_history(case):
-    from qlasskit.qcircuit import QCircuit, gates as G
+    from qlasskit.qcircuit import QCircuit, QCircuitEnhanced, gates as G
 
     feats = ["history"]
     pool = []  # dict(real, U, snap, n)
 
     def add(real, U):
-        pool.append({"real": real, "U": U, "snap": gen_circ.sigs(real), "n": real.num_qubits})
+        pool.append({"real": real, "U": U, "snap": gen_circ.sigs(real), "n": real.num_qubits, "state": state_fp(real)})
 
     for c in case["circuits"]:
-        qc = gen_circ.build(c)
+        if c.get("enh"):
+            qc = gen_circ.build(c, cls=QCircuitEnhanced)
+            for _ in range(c["enh"]):
+                qc.add_ancilla(is_free=True)
+            feats.append("enhanced")
+        else:
+            qc = gen_circ.build(c)
         add(qc, U_of(qc))
 
     nontrivial = False
@@ -126,6 +152,10 @@ def judge_history(case):
                 continue
             if gen_circ.sigs(e["real"]) != e["snap"] or e["real"].num_qubits != e["n"]:
                 return viol("operand-modified:" + opname, feats, op=opname, victim=i, before=e["snap"], after=gen_circ.sigs(e["real"]))
+            now = state_fp(e["real"])
+            if now != e["state"]:
+                diff = [k_ for k_ in now if now.get(k_) != e["state"].get(k_)]
+                return viol("operand-state-modified:" + opname, feats, op=opname, victim=i, attributes=diff, before={k_: e["state"].get(k_) for k_ in diff}, after={k_: now.get(k_) for k_ in diff})
         return None
 
     for op in case["ops"]:
@@ -155,7 +185,7 @@ def judge_history(case):
                 return fc
             if ret is not d["real"] or not close(U_of(d["real"]), exp):
                 return viol("append_circuit-action", feats, qubits=qubits, dst=d["snap"], src=s["snap"], got=gen_circ.sigs(d["real"]))
-            d["U"], d["snap"] = exp, gen_circ.sigs(d["real"])
+            d["U"], d["snap"], d["state"] = exp, gen_circ.sigs(d["real"]), state_fp(d["real"])
         elif k in ("add", "iadd"):
             a = pool[op[1] % len(pool)]
             b = pool[op[2] % len(pool)]
@@ -187,7 +217,7 @@ def judge_history(case):
                     return fc
                 if r is not a["real"] or not close(U_of(r), exp):
                     return viol("iadd-action", feats, a=a["snap"], b=b["snap"], got=gen_circ.sigs(r))
-                a["U"], a["snap"] = exp, gen_circ.sigs(r)
+                a["U"], a["snap"], a["state"] = exp, gen_circ.sigs(r), state_fp(r)
         elif k in ("iaddgate", "mut_append"):
             a = pool[op[1] % len(pool)]
             nm = op[2][0]
@@ -210,7 +240,7 @@ def judge_history(case):
                 return fc
             if not close(U_of(a["real"]), exp):
                 return viol(k + "-action", feats, a=a["snap"], got=gen_circ.sigs(a["real"]))
-            a["U"], a["snap"] = exp, gen_circ.sigs(a["real"])
+            a["U"], a["snap"], a["state"] = exp, gen_circ.sigs(a["real"]), state_fp(a["real"])
         elif k == "repeat":
             a = pool[op[1] % len(pool)]
             n = op[2]
@@ -248,6 +278,30 @@ def judge_history(case):
             add(r, a["U"].copy())
             copied.add(len(pool) - 1)
             copied.add(pool.index(a))
+        elif k == "copy_scratch":
+            # copy an (enhanced) circuit and use the COPY's scratch-qubit bookkeeping: the original must not notice
+            enh = [e for e in pool if isinstance(e["real"], QCircuitEnhanced)]
+            if not enh:
+                continue
+            a = enh[op[1] % len(enh)]
+            try:
+                c = a["real"].copy()
+                if op[2] == "add":
+                    c.add_ancilla()
+                elif op[2] == "mark":
+                    q = c.get_free_ancilla()
+                    c.mark_ancilla(q)
+                else:
+                    q = c.get_free_ancilla()
+                    if op[2] == "get+x":
+                        c.x(q)
+            except Exception as e:
+                return viol("copy-scratch-raises", feats, exc=repr(e))
+            nontrivial = True
+            feats.append("mutation-after-copy")
+            fc = frame_check(set(), k)
+            if fc:
+                return fc
         elif k == "mut_inplace":
             a = pool[op[1] % len(pool)]
             cand = [i for i, g in enumerate(a["real"].gates) if len(g[1]) >= 1]
@@ -269,7 +323,7 @@ def judge_history(case):
             fc = frame_check({ai}, k)
             if fc:
                 return fc
-            a["U"], a["snap"] = U_of(a["real"]), gen_circ.sigs(a["real"])
+            a["U"], a["snap"], a["state"] = U_of(a["real"]), gen_circ.sigs(a["real"]), state_fp(a["real"])
     return {"status": "ok", "nontrivial": nontrivial, "features": feats, "rows": sum(1 << e["n"] for e in pool)}
 
 
@@ -294,6 +348,15 @@ def judge_rmid(case):
             gen_circ.append_gate(qc, nm, qs, p, G)
         elif dup == "barrier-same":
             qc.barrier()
+            qc.append(g, list(w), pp)
+        elif dup in ("sandwich", "sandwich-barrier"):
+            # the same gate object right before and right after a cancelling pair of another gate
+            hx = G.X()
+            tq = [q for q in range(n) if q not in w] or [w[0]]
+            qc.append(hx, [tq[0]])
+            if dup == "sandwich-barrier":
+                qc.barrier()
+            qc.append(hx, [tq[0]])
             qc.append(g, list(w), pp)
     before_sigs = gen_circ.sigs(qc)
     U0 = U_of(qc)
